@@ -5,6 +5,7 @@ package ref
 
 import (
 	"fmt"
+	"sort"
 	"strings"
 	"unicode/utf8"
 
@@ -129,6 +130,9 @@ func EvalPred(p gen.Pred, e Env) (bool, error) {
 		return found != t.Neg, nil
 	case gen.InSub:
 		v := e.Row[t.Col]
+		if t.TopN > 0 {
+			return inTopN(t, v, e)
+		}
 		for _, or := range e.Tables[t.Table] {
 			if t.CorrOuter != "" {
 				// correlated: only the other table's rows whose CorrInner equals this row's CorrOuter
@@ -197,6 +201,54 @@ func EvalPred(p gen.Pred, e Env) (bool, error) {
 		return (b == t.Val) != t.Neg, nil
 	}
 	return true, nil
+}
+
+// inTopN: the subquery's rows (correlated or not) ordered by OtherCol, NULLs
+// last in either direction, cut to the first TopN; v is IN when one of them
+// carries its value.
+func inTopN(t gen.InSub, v any, e Env) (bool, error) {
+	var vals []any
+	for _, or := range e.Tables[t.Table] {
+		if t.CorrOuter != "" {
+			a, b := e.Row[t.CorrOuter], or[t.CorrInner]
+			if a == nil || b == nil {
+				continue
+			}
+			if c, err := CmpScalar(a, b); err != nil || c != 0 {
+				continue
+			}
+		}
+		if ov, ok := or[t.OtherCol]; ok && ov != nil {
+			vals = append(vals, ov)
+		}
+	}
+	var serr error
+	sort.SliceStable(vals, func(i, j int) bool {
+		c, err := CmpScalar(vals[i], vals[j])
+		if err != nil {
+			serr = err
+		}
+		if t.Desc {
+			return c > 0
+		}
+		return c < 0
+	})
+	if serr != nil {
+		return false, serr
+	}
+	if len(vals) > t.TopN {
+		vals = vals[:t.TopN]
+	}
+	for _, ov := range vals {
+		c, err := CmpScalar(v, ov)
+		if err != nil {
+			return false, err
+		}
+		if c == 0 {
+			return true, nil
+		}
+	}
+	return false, nil
 }
 
 func foldASCII(r rune) rune {
